@@ -1175,7 +1175,7 @@ fn generate(rng: &mut Rng, n: u64, tier: &str, emit: &mut dyn FnMut(Vec<String>)
         }
         emit(mk("upload_part", "bucket-a", "mp", "", "", u, 1, &[], "-", "n"));
         emit(mk("list_parts", "bucket-a", "mp", "", "", u, 0, &[], "-", ""));
-        for parts in ["-", "", "1", "1,2", "2", "1,3", "0", "1,2,3"] {
+        for parts in ["-", "", "1", "1,2", "2", "1,3", "0", "1,2,3", "2,1", "1,1", "2,5,9", "3,1,2"] {
             emit(mk("complete_multipart_upload", "bucket-a", "mp", "", "", u, 0, &[], parts, ""));
             emit(mk("complete_multipart_upload", "bucket-b", "obj", "", "", u, 0, &[], parts, ""));
         }
@@ -1291,7 +1291,7 @@ fn generate(rng: &mut Rng, n: u64, tier: &str, emit: &mut dyn FnMut(Vec<String>)
         let part = rng.pick(&[1i64, 2, 3, 0, -4, 10000, 10001]);
         let nk = rng.below(4);
         let ks: Vec<String> = (0..nk).map(|_| if rng.chance(1, 2) { rng.pick(&["obj", "dir/inner", "nokey"]).to_owned() } else { rand_key(rng) }).collect();
-        let parts = rng.pick(&["-", "", "1", "1,2", "2,1"]);
+        let parts = rng.pick(&["-", "", "1", "1,2", "2,1", "2,5", "1,1"]);
         let mut flags = String::new();
         for (c, num, den) in [('m', 1, 2), ('a', 1, 12), ('n', 1, 15), ('s', 1, 15), ('l', 1, 8)] {
             if rng.chance(num, den) {
